@@ -286,6 +286,19 @@ def run_shard(spec, acc):
                         continue
                     out = bytes.fromhex((text.split() + [""])[2])
                     oi = int.from_bytes(out, "little")
+                    if acc.evaluations % 3 == 0 and d.type in ("Fast", "Single") and len(out) <= 223:
+                        # the same assignment through the packet formats (frames of a gateway): what a receiver reassembles from them is
+                        # the very payload the payload-level route produced - same bytes, same length
+                        from .c19 import reassemble
+                        try:
+                            fr_ = [wire.parse_ebyte(p_)[1] for p_ in enc.encode_ebyte(copy.deepcopy(m))]
+                            got_ = (reassemble(fr_) or [None])[-1] if d.type == "Fast" else fr_[0][:len(out)]
+                        except Exception as e_:  # noqa: BLE001
+                            got_ = f"{type(e_).__name__}: {e_}"
+                        acc.count("assignments_also_sent_through_the_packet_format")
+                        if got_ != out:
+                            acc.violation("value-corrupted:packet-format-differs-from-payload", f"{d.id}.{f.id}: assignment '{label}': the packets of encode_ebyte reassemble to "
+                                          f"{got_.hex() if isinstance(got_, bytes) else got_!r}, the payload-level encoding is {out.hex()}", dict(w, field=f.id))
                     acc.case((d.id, f.id, label, repr(value), repr(raw)))
                     w["payload_hex"] = out.hex()
                     # locality: only this field's bits may differ from the base encoding
